@@ -73,7 +73,7 @@ func S_tasklane() {
 		}
 		close(ctx.done)
 	})
-	if vxParam("status") == 1 {
+	for i := 0; i < vxParam("status"); i++ { // Status() may be polled from several goroutines
 		vxProc("status", func() {
 			st := tl.Status()
 			vxObs("status", st.PendingTask, st.LastPanic)
